@@ -20,11 +20,12 @@ type TestPlan struct {
 
 // History is a generated program: tests, their calls, and pre-existing content.
 type History struct {
-	Tests      []TestPlan                `json:"tests"`
-	Pre        map[string][]vkit.Slot    `json:"pre,omitempty"` // file option -> entries present before the first run
-	Interleave bool                      `json:"interleave"`
-	Classes    vkit.Classes              `json:"-"`
-	ClassList  []string                  `json:"classes"`
+	Tests      []TestPlan             `json:"tests"`
+	Pre        map[string][]vkit.Slot `json:"pre,omitempty"` // file option -> entries present before the first run
+	Post       map[string][]vkit.Slot `json:"post,omitempty"` // file option -> entries other tests append after the recording run
+	Interleave bool                   `json:"interleave"`
+	Classes    vkit.Classes           `json:"-"`
+	ClassList  []string               `json:"classes"`
 }
 
 type HistOpts struct {
@@ -175,6 +176,21 @@ func GenHistory(r *rand.Rand, o HistOpts) History {
 	if r.IntN(3) == 0 {
 		f := files[r.IntN(len(files))]
 		n := 1 + r.IntN(3)
+		if r.IntN(3) == 0 {
+			// a file of several KiB to tens of KiB: the program's entries land at arbitrary
+			// offsets relative to the 4096-byte chunks a buffered reader works in
+			n = 30 + r.IntN(300)
+			h.Classes["pre-existing-content-many-KiB"] = true
+			if r.IntN(2) == 0 {
+				// and several KiB that follow the program's entries
+				h.Post = map[string][]vkit.Slot{}
+				for j, m := 0, 30+r.IntN(120); j < m; j++ {
+					t, _ := vkit.Text(r, vkit.TextOpts{NoHuge: true, NoHeader: true})
+					h.Post[f] = append(h.Post[f], vkit.Slot{ID: vkit.SlotID("TestLater", j+1), Text: t, Raw: vkit.Escape(t)})
+				}
+				h.Classes["content-after-the-program's-entries"] = true
+			}
+		}
 		for j := 0; j < n; j++ {
 			id := vkit.SlotID("TestOld", j+1)
 			headers[f] = append(headers[f], "["+id+"]")
@@ -350,6 +366,14 @@ func (s *Sess) RunProcessN(r *rand.Rand, h *History, m vkit.Mode, noColor bool, 
 func (s *Sess) seedPre(h *History) {
 	for f, ents := range h.Pre {
 		s.Seed(s.MultiPath(Op{File: f}), ents)
+	}
+}
+
+// appendPost appends the entries other tests recorded later to the files (and the model).
+func (s *Sess) appendPost(h *History) {
+	for f, ents := range h.Post {
+		p := s.MultiPath(Op{File: f})
+		s.Seed(p, append(append([]vkit.Slot(nil), s.Store.Files[p]...), ents...))
 	}
 }
 
